@@ -31,6 +31,8 @@ def rules_from_probe(probe):
         elif a == '[%s]' % nm['String'] and l == '[%s]' % nm['u8']: out[k] = 'slice'
         elif a == nm['unit_phantom'] and l == nm['unit_phantom']: out[k] = 'phantom'
         elif a == nm['str'] and l == nm['str']: out[k] = 'str'
+        elif [k2 for k2, p2 in probe.items() if k2 not in ('names', k) and p2['self_alias'] == a and p2['self_leaf'] == l]:
+            out[k] = 'as:' + [k2 for k2, p2 in probe.items() if k2 not in ('names', k) and p2['self_alias'] == a and p2['self_leaf'] == l][0]      # Identity = OtherCtor<arg>
         else: raise CheckInconclusive('identity probe: %s declares Identity %r / %r - rule not understood' % (k, a, l))
     return out
 
@@ -49,7 +51,8 @@ def build_algebra_from_rules(rule_kinds):
     for nm, kind in rule_kinds.items():
         if not hasattr(Ty, 'is_' + nm) or kind == 'self': continue
         arg = getattr(Ty, 'arg_' + nm)(t) if hasattr(Ty, 'arg_' + nm) else None
-        rhs = {'arg': lambda: arg, 'ident_arg': lambda: ident(arg), 'slice': lambda: Ty.Slice(arg), 'phantom': lambda: Ty.Phantom(Ty.Unit), 'str': lambda: Ty.Str}[kind]()
+        if kind.startswith('as:'): rhs = getattr(Ty, kind[3:])(arg) if arg is not None else getattr(Ty, kind[3:])
+        else: rhs = {'arg': lambda: arg, 'ident_arg': lambda: ident(arg), 'slice': lambda: Ty.Slice(arg), 'phantom': lambda: Ty.Phantom(Ty.Unit), 'str': lambda: Ty.Str}[kind]()
         shown[nm] = kind
         body = z3.If(getattr(Ty, 'is_' + nm)(t), rhs, body)
     z3.RecAddDefinition(ident, [t], body)
@@ -130,6 +133,7 @@ class Bounded:
         if kind == 'str': return Ty.Str
         if kind == 'phantom': return Ty.Phantom(Ty.Unit)
         if kind == 'ident_arg': return argid
+        if kind.startswith('as:'): return getattr(Ty, kind[3:])(arg) if arg is not None else getattr(Ty, kind[3:])
         raise CheckInconclusive('rule kind ' + str(kind))
 
     def wrap(self, nm, rule_kinds):
@@ -152,6 +156,10 @@ def alias_obligations(Ty, ident):
     for nm in ('Vec', 'Slice', 'Option', 'BTreeSet', 'Compact', 'Range', 'Cow', 'VecDeque', 'BinaryHeap', 'RangeInclusive'):
         obs.append(('%s<X> and %s<Y> never merge when X and Y have different identities' % (nm, nm), [x, y],
                     z3.Implies(ident(x) != ident(y), ident(getattr(Ty, nm)(x)) != ident(getattr(Ty, nm)(y))), {'distinct': nm}))
+    NONALIAS = ['Slice', 'Option', 'BTreeSet', 'BinaryHeap', 'Cow', 'Compact', 'Range', 'RangeInclusive', 'Phantom']
+    for i, k1 in enumerate(NONALIAS):
+        for k2 in NONALIAS[i + 1:]:
+            obs.append(('%s<X> and %s<Y> never merge' % (k1, k2), [x, y], ident(getattr(Ty, k1)(x)) != ident(getattr(Ty, k2)(y)), {'distinct': k1 + '/' + k2}))
     obs.append(('different leaf types never merge', [x, y], z3.Implies(z3.And(Ty.is_Leaf(x), Ty.is_Leaf(y), x != y), ident(x) != ident(y)), {'distinct': 'Leaf'}))
     obs.append(('Option<T> never merges with T or [T]', [x], z3.And(ident(Ty.Option(x)) != ident(x), ident(Ty.Option(x)) != ident(Ty.Slice(x))), {'distinct': 'Option'}))
     obs.append(('str never merges with a slice or a leaf', [x], z3.And(ident(Ty.Str) != ident(Ty.Slice(x)), z3.Implies(Ty.is_Leaf(x), ident(Ty.Str) != ident(x))), {'distinct': 'Str'}))
@@ -172,6 +180,10 @@ def bounded_obligations(Ty, cons, rule_kinds, D):
     obs.append(('all PhantomData instantiations share one identity', [X, Y], W(X, 'Phantom')[1] == W(Y, 'Phantom')[1], {'wrapper': 'Phantom'}))
     for nm in ('Vec', 'Slice', 'Option', 'BTreeSet', 'Compact', 'Range', 'Cow', 'VecDeque', 'BinaryHeap', 'RangeInclusive'):
         obs.append(('%s<X> and %s<Y> never merge when X and Y have different identities' % (nm, nm), [X, Y], z3.Implies(X.ident_x != Y.ident_x, W(X, nm)[1] != W(Y, nm)[1]), {'distinct': nm}))
+    NONALIAS = ['Slice', 'Option', 'BTreeSet', 'BinaryHeap', 'Cow', 'Compact', 'Range', 'RangeInclusive', 'Phantom']
+    for i, k1 in enumerate(NONALIAS):
+        for k2 in NONALIAS[i + 1:]:
+            obs.append(('%s<X> and %s<Y> never merge' % (k1, k2), [X, Y], W(X, k1)[1] != W(Y, k2)[1], {'distinct': k1 + '/' + k2}))
     obs.append(('different leaf types never merge', [X, Y], z3.Implies(z3.And(Ty.is_Leaf(X.x), Ty.is_Leaf(Y.x), X.x != Y.x), X.ident_x != Y.ident_x), {'distinct': 'Leaf'}))
     obs.append(('Option<T> never merges with T or [T]', [X], z3.And(W(X, 'Option')[1] != X.ident_x, W(X, 'Option')[1] != W(X, 'Slice')[1]), {'distinct': 'Option'}))
     obs.append(('str never merges with a slice or a leaf', [X], z3.And(Ty.Str != W(X, 'Slice')[1], z3.Implies(Ty.is_Leaf(X.x), Ty.Str != X.ident_x)), {'distinct': 'Str'}))
@@ -244,6 +256,9 @@ def replay_alias(ctx, case):
         if laws and nested: return True, 'transparent wrapper around a type that is itself an alias (wrapper of wrapper) gets its own id', laws[0]
         return False, None, None
     laws = [f for f in fails if f['law'] in ('distinct',)]
+    if not laws:
+        m = ctx.get_native().ask({'op': 'metatype_laws'})
+        if not m.get('laws_ok', True): return True, None, {'law': 'distinct', 'detail': 'MetaTypes of different definitions are equal: %s' % m.get('failed', [])[:4], 'history': []}
     return (bool(laws), None, laws[0] if laws else None)
 
 
